@@ -80,6 +80,7 @@ struct Scen
 {
   std::unique_ptr<Driver> driver;
   size_t rxCount = 1, rxSize = 64;
+  bool careless = false; // the connect handler lets exceptions of its own constructor calls escape into the library
   std::unique_ptr<BufferPool> sendPool;
   std::map<long, std::unique_ptr<SocketTcpAsync>> socks;
   std::map<long, std::unique_ptr<AcceptorAsync>> accs;
@@ -182,7 +183,12 @@ struct Scen
           if(ord[0] != '?') {
             // a connection the peer already reset cannot be upgraded (getpeername fails): the handler drops it
             try { Attach(std::stol(ord), std::move(tcp)); }
-            catch(std::exception const &) { events.push_back("destroyed " + ord); }
+            catch(std::exception const &) {
+              events.push_back("destroyed " + ord);
+              // a less careful user lets the constructor's exception leave the handler: the library must cope
+              // (C15: a peer that fails between connect and accept is never fatal for the driver)
+              if(careless) throw;
+            }
           }
           RunOnEv(a);
         });
@@ -288,6 +294,7 @@ int main()
       if(w.empty()) continue;
       auto num = [&](size_t k) { return std::stol(w[k]); };
       auto known = [&](long i) { return sc.socks.count(i) || sc.accs.count(i) || sc.peerFd.count(i); };
+      if(w[0] == "careless") { sc.careless = true; continue; } // not echoed: no observable of its own
       bool can = (w[0] == "rx" && w.size() == 3) ||
                  (w[0] == "client" && w.size() == 2 && !known(num(1))) ||
                  (w[0] == "acceptor" && w.size() == 2 && !known(num(1))) ||
